@@ -61,12 +61,7 @@ func (s *vSrvStream) RecvMsg(m interface{}) error {
 	vAssert(out.msgType == requestType, "C13.server-creates-request-type")
 	// what the codec does (gorumsUnmarshal): the metadata is decoded INTO the message's
 	// metadata object, the payload is a fresh message
-	if out.Metadata == nil {
-		out.Metadata = &ordering.Metadata{}
-	}
-	out.Metadata.MessageID = r.Metadata.MessageID
-	out.Metadata.Method = r.Metadata.Method
-	out.Metadata.Status = r.Metadata.Status
+	vDecodeMetadataInto(out, r.Metadata)
 	out.Message = r.Message
 	return nil
 }
